@@ -55,7 +55,7 @@ def plan(tier, seed):
 def mandatory(tier):
     out = [f"model/{m}" for m in MODELS] + [f"kind/{k}" for k in X.KINDS]
     out += [f"flags/{f}" for f in ["link=False,update=False", "link=False,update=True", "link=True,update=False", "link=True,update=True", "inv"]]
-    out += [f"change/{c}" for c in CHANGES] + ["before_change", "after_change", "updated_buffers_forward", "non_identity", "inverse/grid_flag"]
+    out += [f"change/{c}" for c in CHANGES] + ["before_change", "after_change", "updated_buffers_forward", "non_identity", "inverse/grid_flag", "velocity/scale_option", "euler/order_option"] + [f"pair/{a}>{b}" for a in ("Translation", "AnisotropicScaling", "HomogeneousTransform") for b in ("Translation", "AnisotropicScaling", "HomogeneousTransform")] + [f"euler_order/{o}" for o in ("XYZ", "XZY", "YXZ", "YZX", "ZXY", "ZYX", "XYX", "XZX", "YXY", "YZY", "ZXZ", "ZYZ")]
     return out
 
 
@@ -108,7 +108,11 @@ def run_item(ctx, item):
             info["members"] = names
         elif model == "Generic":
             cfg = S.TransformConfig(transform=str(rng.choice(["Affine o SVF", "SVF o Affine", "Affine", "SVFFD o Affine"])), affine_model=str(rng.choice(["TRS", "TKRS", "A", "RT"] + (["QT"] if D == 3 else []))), rotation_model="ZXZ", control_point_spacing=1, scaling_and_squaring_steps=5)
-            info["config"] = [cfg.transform, cfg.affine_model]
+            if kind == "callable" and "K" not in cfg.affine_model and rng.integers(0, 2):
+                # predicted parameters given for (..., x) coordinate order: converted on every update of the transform
+                cfg.flip_grid_coords = True
+                ctx.bucket("generic/flip_grid_coords")
+            info["config"] = [cfg.transform, cfg.affine_model, "flip" if cfg.flip_grid_coords else "noflip"]
             if kind == "callable":
                 t0 = S.GenericSpatialTransform(g, params=False, config=cfg)
                 vals = {}
@@ -129,7 +133,16 @@ def run_item(ctx, item):
                         child.data_(torch.tensor(X.to_raw(cname, X.natural_values(rng, cname, D, 1, g), kind == "parameter"), dtype=torch.float32))
             G = 1
         else:
-            t, tinfo = X.make(rng, model, g, groups=G, kind=kind, amplitude=amp)
+            opts = {}
+            if "Velocity" in model and rng.integers(0, 2):
+                opts["scale"] = float(rng.choice([0.5, 1.5, -0.75]))  # constant factor of the velocity field
+                ctx.bucket("velocity/scale_option")
+            if model == "EulerRotation" and D == 3:
+                opts["order"] = str(rng.choice(["XYZ", "XZY", "YXZ", "YZX", "ZXY", "ZYX", "XYX", "XZX", "YXY", "YZY", "ZXZ", "ZYZ"]))
+                ctx.bucket("euler/order_option")
+            info.update(opts)
+            t, tinfo = X.make(rng, model, g, groups=G, kind=kind, amplitude=amp, **opts)
+            amp = amp * max(1.0, abs(opts.get("scale", 1.0)))  # the bound below is in terms of the displacement amplitude
             boxes.update(tinfo["boxes"])
         history.append("build")
     ctx.nontriv(info, gp, i)
@@ -152,8 +165,16 @@ def run_item(ctx, item):
                     di = None if inv.linear else inv.disp().numpy()
             back = inv(y)
             fwd = t(inv(x))
+            y_again = t(x)
+            inv2 = inv.inverse() if hasattr(inv, "inverse") else None
+            y_inv2 = inv2(x) if inv2 is not None else None
         xb = np.broadcast_to(x.numpy(), back.shape)
         ctx.bucket(stage)
+        # evaluating a transform or its inverse leaves both as they were: the same call gives the same result again
+        ctx.close("forward_map_unchanged_by_evaluations", y_again, y.numpy(), 0.0, key=f"inverse/{stage}/repeat", stage=stage, history=list(history), **info)
+        if y_inv2 is not None:
+            # the inverse of the inverse is the transform
+            ctx.close("inverse_of_inverse_is_the_transform", y_inv2, y.numpy(), tol if velocity else 1e-5, key=f"inverse/{stage}/double_inverse", stage=stage, history=list(history), **info)
         moved = float((y - x).abs().max())
         if moved > 1e-4:  # generator sanity (see C06): counted, never judged
             ctx.bucket("non_identity")
@@ -177,6 +198,46 @@ def run_item(ctx, item):
                     ui = np.moveaxis((inv(xg) - xg).numpy(), -1, 1)
                 ctx.close("inverse_disp_with_updated_buffers_equals_its_point_map", di, ui, tol, key=f"inverse/updated_buffers/{'velocity' if velocity else 'linear'}", stage=stage, history=list(history), **info)
 
+    if model == "Sequential":
+        # every ordered pair of operand forms of the matrix composition (translation vector, square matrix, D x (D+1)
+        # matrix) with optimisable and with fixed-tensor parameters: composing, evaluating and inverting repeatedly
+        # leaves the members as they were, and the inverse inverts
+        forms = ["Translation", "AnisotropicScaling", "HomogeneousTransform"]
+        for fa, fb in itertools.product(forms, forms):
+            for pk in ("buffer", "parameter"):
+                with ctx.guard("pair", key=f"exc/pair/{fa}>{fb}/{pk}", **info), torch.no_grad():
+                    ma, _ = X.make(rng, fa, g, groups=1, kind=pk, amplitude=amp)
+                    mb, _ = X.make(rng, fb, g, groups=1, kind=pk, amplitude=amp)
+                    seq = S.SequentialTransform(ma, mb)
+                    before = [m.params.detach().clone() for m in (ma, mb)]
+                    y1 = seq(x)
+                    T1 = seq.tensor().clone()
+                    sinv = seq.inverse()
+                    back = sinv(y1)
+                    y2 = seq(x)
+                    T2 = seq.tensor().clone()
+                    ctx.bucket(f"pair/{fa}>{fb}")
+                    ctx.true("pair_members_unchanged_by_evaluation", all(bool(torch.equal(m.params.detach(), b0)) for m, b0 in zip((ma, mb), before)), key=f"pair/mutated/{fa}>{fb}", kind=pk)
+                    ctx.close("pair_second_evaluation_equals_first", y2, y1.numpy(), 0.0, key=f"pair/repeat/{fa}>{fb}", kind=pk)
+                    ctx.close("pair_tensor_repeatable", T2, T1.numpy(), 0.0, key=f"pair/repeat/{fa}>{fb}", kind=pk)
+                    ctx.close("pair_inverse_inverts", back, np.broadcast_to(x.numpy(), back.shape), 1e-4, key=f"pair/inverse/{fa}>{fb}", kind=pk)
+    if model == "EulerRotation":
+        # every order string: the matrix is a proper rotation and the inverse view inverts it
+        g3 = g if D == 3 else gen.make_grid(gen.rand_grid_params(rng, 3, max_size=7, min_size=5, big_offset=False))
+        x3 = torch.tensor(rng.uniform(-0.6, 0.6, size=(1, 7, 3)), dtype=torch.float32)
+        for order in ("XYZ", "XZY", "YXZ", "YZX", "ZXY", "ZYX", "XYX", "XZX", "YXY", "YZY", "ZXZ", "ZYZ"):
+            for spelling in (order, order.lower(), " o ".join(f"R{c.lower()}" for c in order)):
+                with ctx.guard("EulerRotation(order)", key=f"exc/euler_order/{order}", spelling=spelling, **info), torch.no_grad():
+                    ang = torch.tensor(rng.uniform(-2.5, 2.5, size=(1, 3)), dtype=torch.float32)
+                    te = S.EulerRotation(g3, params=False, order=spelling)
+                    te.angles_(ang)
+                    R = te.tensor()[0, :3, :3].double().numpy()
+                    ctx.close("euler_matrix_is_orthonormal", R @ R.T, np.eye(3), 2e-6, key=f"euler_order/{order}", spelling=spelling)
+                    ctx.close("euler_matrix_is_proper", np.linalg.det(R), 1.0, 2e-6, key=f"euler_order/{order}", spelling=spelling)
+                    ie = te.inverse()
+                    b3 = ie(te(x3))
+                    ctx.close("euler_inverse_inverts_for_every_order", b3, np.broadcast_to(x3.numpy(), b3.shape), 1e-5, key=f"euler_order/{order}", spelling=spelling)
+            ctx.bucket(f"euler_order/{order}")
     inv = None
     with ctx.guard("inverse", key=f"exc/inverse/{flag_name(flags)}/{kind}", history=history, **info):
         if flags == "inv":
